@@ -34,11 +34,20 @@ type sinkState struct {
 	fan     map[types.Object][]types.Object // MultiWriter variable -> targets
 	arrays  map[types.Object][]span
 	arrLen  map[types.Object]int64
-	tParam  types.Object
-	vParam  types.Object
+	tParam  map[types.Object]bool
+	vParam  map[types.Object]bool
 	covered map[string][]string // Crc token -> what the digest had seen
 	undec   []string
 	ncrc    int
+	alias   map[types.Object]types.Object // helper parameter -> the caller's sink
+	scalar  map[types.Object]scalarVal    // integer locals: what they hold
+	depth   int
+}
+
+// scalarVal is what an integer-valued expression stands for.
+type scalarVal struct {
+	kind string // "Version", "Crc" (with the digest's coverage when it was sampled), "" = some number
+	key  string
 }
 
 func (s *sinkState) und(format string, a ...interface{}) {
@@ -54,7 +63,13 @@ func (s *sinkState) obj(x ast.Expr) types.Object {
 	if !ok {
 		return nil
 	}
-	return core.ObjOf(s.info, id)
+	o := core.ObjOf(s.info, id)
+	for i := 0; i < 4; i++ {
+		if a, ok := s.alias[o]; ok {
+			o = a
+		}
+	}
+	return o
 }
 
 // targets resolves a writer expression to the sinks it feeds.
@@ -131,8 +146,20 @@ func (s *sinkState) fixed(v ast.Expr, width int, order string) string {
 			}
 		}
 	}
-	// the RDB version
-	inner := v
+	switch sv := s.classify(v); sv.kind {
+	case "Version":
+		return fmt.Sprintf("Version%d%s", width, order)
+	case "Crc":
+		tok := fmt.Sprintf("Crc%d%s", width, order)
+		return tok + "#" + sv.key
+	}
+	return fmt.Sprintf("Fix%d%s", width, order)
+}
+
+// classify tells what an integer expression stands for. Sampling a digest
+// (Sum64) records what the digest has received at this moment.
+func (s *sinkState) classify(v ast.Expr) scalarVal {
+	inner := ast.Unparen(v)
 	for {
 		call, ok := inner.(*ast.CallExpr)
 		if ok && len(call.Args) == 1 {
@@ -144,22 +171,25 @@ func (s *sinkState) fixed(v ast.Expr, width int, order string) string {
 		break
 	}
 	if id, ok := inner.(*ast.Ident); ok {
-		if o := core.ObjOf(s.info, id); o != nil && o.Name() == "ToVersion" && o.Parent() == o.Pkg().Scope() {
-			return fmt.Sprintf("Version%d%s", width, order)
+		o := core.ObjOf(s.info, id)
+		if sv, ok := s.scalar[o]; ok {
+			return sv
+		}
+		if o != nil && o.Name() == "ToVersion" && o.Pkg() != nil && o.Parent() == o.Pkg().Scope() {
+			return scalarVal{kind: "Version"}
 		}
 	}
 	if call, ok := inner.(*ast.CallExpr); ok {
 		if sel, ok := ast.Unparen(call.Fun).(*ast.SelectorExpr); ok && sel.Sel.Name == "Sum64" {
 			if o := s.obj(sel.X); o != nil && s.isDig[o] {
 				s.ncrc++
-				tok := fmt.Sprintf("Crc%d%s", width, order)
-				key := fmt.Sprintf("%s#%d", tok, s.ncrc)
+				key := fmt.Sprint(s.ncrc)
 				s.covered[key] = append([]string{}, s.content[o]...)
-				return key
+				return scalarVal{kind: "Crc", key: key}
 			}
 		}
 	}
-	return fmt.Sprintf("Fix%d%s", width, order)
+	return scalarVal{}
 }
 
 func (s *sinkState) byteTok(x ast.Expr) string {
@@ -174,7 +204,7 @@ func (s *sinkState) byteTok(x ast.Expr) string {
 		}
 		break
 	}
-	if id, ok := x.(*ast.Ident); ok && core.ObjOf(s.info, id) == s.tParam {
+	if id, ok := x.(*ast.Ident); ok && s.tParam[core.ObjOf(s.info, id)] {
 		return "TypeByte"
 	}
 	if v, ok := core.IntConst(s.info, x); ok {
@@ -201,8 +231,8 @@ func (s *sinkState) seqTokens(x ast.Expr) []string {
 			return out
 		}
 	case *ast.Ident:
-		o := core.ObjOf(s.info, v)
-		if o == s.vParam {
+		o := s.obj(v)
+		if s.vParam[o] {
 			return []string{"Bytes"}
 		}
 		if c, ok := s.content[o]; ok && !s.isDig[o] {
@@ -246,7 +276,7 @@ func (s *sinkState) seqTokens(x ast.Expr) []string {
 			s.und("`%s` does not coincide with one value stored by PutUintN", s.c.Src(v))
 			return nil
 		}
-		if o == s.vParam && v.Low == nil && v.High == nil {
+		if s.vParam[o] && v.Low == nil && v.High == nil {
 			return []string{"Bytes"}
 		}
 	}
@@ -366,6 +396,12 @@ func (s *sinkState) define(lhs *ast.Ident, typ types.Type, rhs ast.Expr) {
 		s.content[o] = s.seqTokens(rhs)
 		return
 	}
+	if bt, ok := t.Underlying().(*types.Basic); t != nil && ok && bt.Info()&types.IsInteger != 0 {
+		s.scalar[o] = s.classify(rhs)
+		if s.scalar[o].kind != "" {
+			return
+		}
+	}
 	// anything else must not involve a tracked sink
 	s.noSinkUse(rhs)
 }
@@ -446,7 +482,62 @@ func (s *sinkState) call(call *ast.CallExpr) {
 			}
 		}
 	}
+	if s.helper(call) {
+		return
+	}
 	s.noSinkUse(call)
+}
+
+// helper interprets a call of a same-package function that receives sinks:
+// its parameters are bound to the caller's sinks and values and its
+// (straight-line) body is interpreted in place.
+func (s *sinkState) helper(call *ast.CallExpr) bool {
+	f := core.CalleeFunc(s.info, call)
+	if f == nil || f.Pkg() == nil || !strings.HasSuffix(f.Pkg().Path(), pkg) || s.depth >= 3 || call.Ellipsis.IsValid() {
+		return false
+	}
+	fn := s.c.FnOf(f)
+	if fn == nil || fn.Decl.Body == nil || fn.Decl.Recv != nil {
+		return false
+	}
+	i := 0
+	for _, fl := range fn.Decl.Type.Params.List {
+		for _, nm := range fl.Names {
+			if i >= len(call.Args) {
+				return false
+			}
+			po := s.info.Defs[nm]
+			arg := call.Args[i]
+			i++
+			if po == nil {
+				continue
+			}
+			ao := s.obj(arg)
+			switch {
+			case ao != nil && (s.targets(arg) != nil || s.arrLen[ao] != 0):
+				s.alias[po] = ao
+			case ao != nil && s.tParam[ao]:
+				s.tParam[po] = true
+			case ao != nil && s.vParam[ao]:
+				s.vParam[po] = true
+			default:
+				if bt, ok := s.info.TypeOf(arg).Underlying().(*types.Basic); ok && bt.Info()&types.IsInteger != 0 {
+					s.scalar[po] = s.classify(arg)
+				} else {
+					s.noSinkUse(arg)
+				}
+			}
+		}
+	}
+	s.depth++
+	for _, st := range fn.Decl.Body.List {
+		if _, ok := st.(*ast.ReturnStmt); ok {
+			break
+		}
+		s.stmt(st)
+	}
+	s.depth--
+	return true
 }
 
 func (s *sinkState) stmt(st ast.Stmt) (ret []string, returned bool) {
@@ -526,7 +617,8 @@ func DumpLayout(c *core.Ctx) (fn *core.Fn, layout, cover string, freshDigest boo
 	}
 	s := &sinkState{info: info, c: c, content: map[types.Object][]string{}, isDig: map[types.Object]bool{}, digInit: map[types.Object]ast.Expr{},
 		fan: map[types.Object][]types.Object{}, arrays: map[types.Object][]span{}, arrLen: map[types.Object]int64{},
-		tParam: info.Defs[params[0]], vParam: info.Defs[params[1]], covered: map[string][]string{}}
+		tParam: map[types.Object]bool{info.Defs[params[0]]: true}, vParam: map[types.Object]bool{info.Defs[params[1]]: true},
+		covered: map[string][]string{}, alias: map[types.Object]types.Object{}, scalar: map[types.Object]scalarVal{}}
 	var toks []string
 	returned := false
 	for _, st := range fn.Decl.Body.List {
@@ -541,7 +633,7 @@ func DumpLayout(c *core.Ctx) (fn *core.Fn, layout, cover string, freshDigest boo
 	var shown, cov []string
 	for _, t := range toks {
 		if i := strings.Index(t, "#"); i >= 0 {
-			cov = s.covered[t]
+			cov = s.covered[t[i+1:]]
 			t = t[:i]
 		}
 		shown = append(shown, t)
